@@ -60,3 +60,42 @@ def make_slice(fn, name, body_of_loop, stmt_range, params, returns):
         if not hasattr(n, "lineno"):
             n.lineno = f.lineno
     return f
+
+
+class _SubstExpr(ast.NodeTransformer):
+    def __init__(self, mapping):
+        self.mapping = mapping    # unparsed source text -> replacement expression text
+
+    def generic_visit(self, node):
+        node = super().generic_visit(node)
+        if isinstance(node, ast.expr):
+            try:
+                txt = ast.unparse(node)
+            except Exception:
+                return node
+            if txt in self.mapping:
+                self.hits[txt] = self.hits.get(txt, 0) + 1
+                return ast.copy_location(ast.parse(self.mapping[txt], mode="eval").body, node)
+        return node
+    hits = None
+
+
+def whole_function(fn, name, subst, params, must_hit=()):
+    """the whole body of a real function as a stand-alone function: listed sub-expressions (by source text) are replaced by expressions over the
+    new parameters (e.g. `len(self)` -> `n`, `self[i].check_rortho(rtol, atol)` -> `ortho[i]`); everything else is kept verbatim.
+    must_hit: source texts that have to occur (otherwise the description no longer fits the code: SliceError = stale contract)"""
+    sub = _SubstExpr(subst)
+    sub.hits = {}
+    stmts = [sub.visit(copy.deepcopy(x)) for x in fn.body if not (isinstance(x, ast.Expr) and isinstance(x.value, ast.Constant) and isinstance(x.value.value, str))]
+    for t in must_hit:
+        if not sub.hits.get(t):
+            raise SliceError(f"expression `{t}` does not occur in {fn.name} any more")
+    f = ast.FunctionDef(name=name, args=ast.arguments(posonlyargs=[], args=[ast.arg(arg=p) for p in params], kwonlyargs=[], kw_defaults=[], defaults=[]),
+                        body=stmts, decorator_list=[], type_params=[])
+    f.lineno = fn.lineno
+    f.col_offset = 0
+    ast.fix_missing_locations(f)
+    for n in ast.walk(f):
+        if not hasattr(n, "lineno"):
+            n.lineno = f.lineno
+    return f
